@@ -89,6 +89,35 @@ def outcome(t, ns):
 _fresh = {}
 
 
+def caller_namespace(ns):
+    """a caller's own namespace (a TemplateDict) a template is rendered into as a sub-template"""
+    from DocumentTemplate._DocumentTemplate import TemplateDict
+    md = TemplateDict()
+    md.guarded_getattr = md.guarded_getitem = None
+    md._push({'y': 'caller-y', 'a': 'caller-a'})
+    md._push(dict(ns))
+    return md
+
+
+def sub_outcome(t, md, k):
+    """render `t` the way a calling template does -- t(client, caller's namespace) -- with no client, one client or a
+    tuple of clients"""
+    clients = [O(y='c1-y'), O(y='c2-y', a='c2-a'), O(q=1)]
+    client = (None, clients[0], (clients[0], clients[1]), tuple(clients), ())[k % 5]
+    try:
+        return t(client, md)
+    except Exception as e:  # noqa
+        return 'EXC:' + type(e).__name__
+
+
+def fresh_sub(b, d, i, k):
+    from DocumentTemplate.DT_HTML import HTML
+    key = ('sub', b, d, i, k % 5)
+    if key not in _fresh:
+        _fresh[key] = sub_outcome(HTML(SOURCES[b - 1], defaults(d)), caller_namespace(namespaces()[i - 1]), k)
+    return _fresh[key]
+
+
 def fresh(b, d, i):
     from DocumentTemplate.DT_HTML import HTML
     key = (b, d, i)
@@ -107,6 +136,7 @@ def run_history(h):
     t = HTML(SOURCES[hist[0][1] - 1], given)
     cur_defaults = 'd0'
     k = 0
+    mds = [caller_namespace(n) for n in nss]          # the callers' namespaces live as long as the history
     for step, (op, arg) in enumerate(hist[1:], 1):
         if op == 'render':
             got = outcome(t, nss[arg - 1])
@@ -116,6 +146,19 @@ def run_history(h):
             if got != exp:
                 return {'step': step, 'op': [op, arg], 'why': 'render differs from a fresh template',
                         'key': [b, d, i], 'expected': exp, 'got': got}
+            # the same template rendered as a sub-template into a caller's namespace: equal to a fresh template, and the
+            # caller's namespace is left exactly as it was
+            md = mds[arg - 1]
+            before, lvl = [id(f) for f in md._data], md.level
+            got = sub_outcome(t, md, step + k)
+            if [id(f) for f in md._data] != before or md.level != lvl:
+                return {'step': step, 'op': [op, arg, 'as sub-template, client shape %d' % ((step + k) % 5)],
+                        'why': "the caller's namespace was modified by the rendering",
+                        'frames_before': len(before), 'frames_after': len(md._data), 'level': [lvl, md.level]}
+            exp = fresh_sub(b, d, i, step + k)
+            if got != exp:
+                return {'step': step, 'op': [op, arg, 'as sub-template, client shape %d' % ((step + k) % 5)],
+                        'why': 'render differs from a fresh template', 'key': [b, d, i], 'expected': exp, 'got': got}
         elif op == 'pickle':
             t = pickle.loads(pickle.dumps(t))
         elif op == 'deepcopy':
